@@ -6,6 +6,7 @@ import numpy as np
 from hypothesis import strategies as st
 
 from .. import gen, infer, series
+from .. import core
 from ..core import call, drive
 from ..tissue import PRNG
 
@@ -137,7 +138,7 @@ def check_case(p, ctx):
     fsys = call(fs.ForSys, S.frames, cm=False)
     # tracking precondition (C12's business): assert first so that a tracking failure is not blamed on inference
     for m in range(n - 1):
-        mp = fsys.mesh.mapping.get(m)
+        mp = core.mesh_of(fsys).mapping.get(m)
         if mp is None or any(mp.get(S.vid(m, j)) != S.vid(m + 1, j) for j in js):
             ctx.skip("tracking did not follow ground truth (reported under C12)")
             return
